@@ -37,7 +37,7 @@ theorem Local.destOk {k : FKind} {fs fs' : Fs} {p D : Path} (h : Local k fs fs' 
 theorem Local.ctx {k : FKind} {fs fs' : Fs} {D : Path} {cs trail : List Str}
     (h : Local k fs fs' (D ++ cs)) (hc : Ctx fs D cs trail) : Ctx fs' D cs trail :=
   ⟨h.destOk hc.dest, hc.good, hc.trailEmpty, hc.trailRoot, fun pre hp hne =>
-    NoneOrDir.of_eqMod (h.eqMod_of_ne (fun e => hne (List.append_cancel_left e))) (hc.clean pre hp hne)⟩
+    NotLink.of_eqMod (h.eqMod_of_ne (fun e => hne (List.append_cancel_left e))) (hc.clean pre hp hne)⟩
 
 theorem Ctx.res {fs : Fs} {D : Path} {cs trail : List Str} (hc : Ctx fs D cs trail) (follow : Bool)
     (hf : FinalNotLink fs (D ++ cs)) :
@@ -82,9 +82,8 @@ theorem setPermsFs_local {k : FKind} {fs : Fs} {D : Path} {cs trail : List Str} 
 /-! ### One file -/
 
 theorem restoreFileFs_local {uidOf gidOf : Str → Option Nat} {old : Bool} {fs : Fs} {D : Path}
-    {cs trail : List Str} {n : RNode} (hc : Ctx fs D cs trail) (hf : NoneOrDir (fs.node (D ++ cs))) :
+    {cs trail : List Str} {n : RNode} (hc : Ctx fs D cs trail) (hf0 : FinalNotLink fs (D ++ cs)) :
     Local .file fs (restoreFileFs uidOf gidOf old fs (D ++ cs ++ trail) n).1 (D ++ cs) := by
-  have hf0 := FinalNotLink.of_noneOrDir hf
   have hfile : FKind.file ≠ .symlink := by decide
   obtain ⟨L1, hh⟩ := Fs.create_local (hc.res true hf0)
   unfold restoreFileFs
@@ -148,9 +147,8 @@ theorem restoreSymlinkFs_local {uidOf gidOf : Str → Option Nat} {fs : Fs} {D :
 /-! ### One deferral -/
 
 theorem applyDeferralFs_local {uidOf gidOf : Str → Option Nat} {fs : Fs} {D : Path}
-    {cs trail : List Str} {n : RNode} (hc : Ctx fs D cs trail) (hf : NoneOrDir (fs.node (D ++ cs))) :
+    {cs trail : List Str} {n : RNode} (hc : Ctx fs D cs trail) (hf0 : FinalNotLink fs (D ++ cs)) :
     Local .dir fs (applyDeferralFs uidOf gidOf fs { path := D ++ cs ++ trail, node := n }).1 (D ++ cs) := by
-  have hf0 := FinalNotLink.of_noneOrDir hf
   have hdir : FKind.dir ≠ .symlink := by decide
   unfold applyDeferralFs
   dsimp only
@@ -172,7 +170,7 @@ theorem Fs.mkdir_enoent {fs fs1 : Fs} {path : List Str} (h : fs.mkdir path = (fs
     cases hn : fs.node p <;> rw [hn] at h <;> simp at h
 
 theorem ctx_of_cleanFull {fs : Fs} {D : Path} {cs : List Str} (hD : DestOk fs D)
-    (hg : ∀ c ∈ cs, goodName c = true) (hc : CleanFull fs D cs) : Ctx fs D cs [] :=
+    (hg : ∀ c ∈ cs, goodName c = true) (hc : CleanFullL fs D cs) : Ctx fs D cs [] :=
   ⟨hD, hg, (fun _ h => nomatch h), Or.inl rfl, hc.to⟩
 
 theorem Grows.cleanFull {D : Path} {T : List Str → Prop} {fs fs' : Fs} {cs : List Str}
@@ -185,8 +183,21 @@ theorem Grows.cleanFull {D : Path} {T : List Str → Prop} {fs fs' : Fs} {cs : L
     rw [hx] at hx'; cases hx'
     rw [hk']; exact hc pre hp y hn
 
+theorem Grows.cleanFullL {D : Path} {T : List Str → Prop} {fs fs' : Fs} {cs : List Str}
+    (h : Grows D T (fun _ => False) fs fs') (hc : CleanFullL fs D cs) : CleanFullL fs' D cs := by
+  intro pre hp x hx
+  cases hn : fs.node (D ++ pre) with
+  | none =>
+    rcases h.fresh pre x hn hx with hk | hf
+    · rw [hk]; decide
+    · exact hf.elim
+  | some y =>
+    obtain ⟨x', hx', hk'⟩ := h.kept _ y hn
+    rw [hx] at hx'; cases hx'
+    rw [hk']; exact hc pre hp y hn
+
 theorem mkdir_grows {fs : Fs} {D : Path} {cs : List Str} (hD : DestOk fs D)
-    (hg : ∀ c ∈ cs, goodName c = true) (hc : CleanFull fs D cs) :
+    (hg : ∀ c ∈ cs, goodName c = true) (hc : CleanFullL fs D cs) :
     Grows D (· <+: cs) (fun _ => False) fs (fs.mkdir (D ++ cs)).1 := by
   have hctx := ctx_of_cleanFull hD hg hc
   have L : Local .dir fs (fs.mkdir (D ++ cs ++ [])).1 (D ++ cs) := Fs.mkdir_local hctx.res_nofollow
@@ -197,7 +208,7 @@ theorem mkdir_grows {fs : Fs} {D : Path} {cs : List Str} (hD : DestOk fs D)
   exact (L.grows hDn).mono (fun c h => h ▸ List.prefix_refl _) (fun c h => h.2 rfl)
 
 theorem mkdirAll_grows {D : Path} : ∀ (k : Nat) (fs : Fs) (cs : List Str), DestOk fs D →
-    (∀ c ∈ cs, goodName c = true) → CleanFull fs D cs →
+    (∀ c ∈ cs, goodName c = true) → CleanFullL fs D cs →
     Grows D (· <+: cs) (fun _ => False) fs (Fs.mkdirAll k fs (D ++ cs)).1 := by
   intro k
   induction k with
@@ -226,7 +237,7 @@ theorem mkdirAll_grows {D : Path} : ∀ (k : Nat) (fs : Fs) (cs : List Str), Des
           | error e => exact G2
           | ok u =>
             dsimp only at G2 ⊢
-            have G3 := mkdir_grows (G2.destOk hD) hg (G2.cleanFull hc)
+            have G3 := mkdir_grows (G2.destOk hD) hg (G2.cleanFullL hc)
             split
             · rename_i fs2 _ heq3
               rw [heq3] at G3
